@@ -11,5 +11,6 @@ CONSTANTS
   Warm = TRUE
   Per = 8
   Rebuild = "limit-burst"
-INVARIANTS DeviationOnlyViaCache FreshIsChoose PrecedenceOK BoundOK ZeroOK
+  SufCheck = "exists-first"
+INVARIANTS SuffrageOnlyInConsensus DeviationOnlyViaCache FreshIsChoose PrecedenceOK BoundOK ZeroOK
 CHECK_DEADLOCK FALSE
